@@ -262,6 +262,12 @@ func GenAuthorArgs(r *Rand, d model.Doc) []string {
 		if r.Chance(10) {
 			// <cr> not last
 			args = append(args, "cmd-arg="+PickOf(r, cmdArgWords...))
+		} else if r.Chance(12) {
+			// <cr> is the last cmd-arg but not the last argument of the request: it counts
+			args = append(args, PickOf(r, "priv-lvl=15", "priv-lvl*1", "timeout=5", "service=shell"))
+			if r.Chance(30) {
+				args = append(args[1:], args[0])
+			}
 		}
 		if r.Chance(8) {
 			args[0] = PickOf(r, "service=ppp", "service*shell", " service=shell ")
